@@ -248,6 +248,12 @@ def foreignVerdict (cmds : List Cmd) (toks : List String) : List String × Optio
     else (toks, some "viol:unparseable-output")
   | none => (toks, some "viol:unparseable-output")
 
+/-- the model's abstraction of a command for the fence overlay (WK.C13.FCmd) -/
+def toFCmd (c : Cmd) : FCmd :=
+  { kind := if cmdType c.data == some 21 then .fence else if cmdType c.data == some 22 then .ack
+            else if cmdType c.data == some 23 then .cleanup else .normal,
+    hs := c.hashSlot }
+
 /-- KNOWN FINDING pattern: inside ONE successful batch a CleanupMigrationOutbox (type 23)
     is followed by a command of the same hash slot that the implementation answers
     `fenced` although one at a time (after the cleanup removed the migration state) it is
@@ -262,6 +268,8 @@ def staleFencePattern (tab : List Tab) (cmds : List Cmd) (toks : List String) : 
         match p.splitOn ":" with
         | [i, r] => i.toNat?.map (fun i => (i, r))
         | _ => none)
+      -- the batch must be one the model's exception covers (c13_fence_overlay_transparent does not apply)
+      cleanupThenSameSlot (pairs.filterMap (fun p => (cmds.find? (fun c => c.index = p.1)).map toFCmd)) &&
       pairs.length ≥ 2 &&
       (List.range pairs.length).any (fun j =>
         let pj := pairs.getD j (0, "")
